@@ -131,7 +131,7 @@ impl Prop for C14 {
          type and libfunc declaration edits incl. generic-argument values (+-1, negation, 0, +2^128, P, 2^300) \
          and kinds, declaration delete / duplicate / reorder, type-info flag flips, function entry point / \
          signature edits); the enumeration is complete in thorough and thinned (every 5th element of the cross \
-         products) in quick. (2) Seeded multi-point mutants (2-4 mutations). (3) Felt vectors (mutated valid \
+         products) in quick. (1b) Libfunc instantiations: every generic libfunc of the corpus with 1-3 type arguments is declared with arguments from a pool of 28 boundary types (empty / singleton / 2^128-wide / perfect-square / full-field BoundedInt ranges, all integer types, felt252, NonZero, Array, Box; complete for arity 1-2, thinned for 3). (2) Seeded multi-point mutants (2-4 mutations). (3) Felt vectors (mutated valid \
          serialisations and random) through ContractClass::extract_sierra_program. Each program goes through \
          ProgramRegistryInfo::new, calc_metadata (linear; non-linear for small programs), \
          calc_metadata_ap_change_only and compile (gas check on and off). Violation = a panic (key = \
@@ -194,6 +194,70 @@ impl Prop for C14 {
                         if reported.insert(sig.clone()) || ctx.known.matches("C14", &sig).is_some() {
                             let f = Failure { sig, what, artefact: artefact(item, &[m.clone()]) };
                             ctx.report(&f, shard);
+                        }
+                    }
+                }
+            }
+        }
+        // Part 1b: libfunc instantiations. Every generic libfunc of the corpus whose generic arguments
+        // are types is declared with arguments drawn from a pool of boundary types (the declaration
+        // alone is specialised eagerly by the registry): empty / singleton / inverted-looking /
+        // 2^128-wide BoundedInt ranges, every integer type, felt252, NonZero, Array, Box.
+        {
+            const POOL: &[(&str, &str)] = &[
+                ("u8", "u8"), ("u16", "u16"), ("u32", "u32"), ("u64", "u64"), ("u128", "u128"), ("i8", "i8"), ("i16", "i16"), ("i32", "i32"),
+                ("i64", "i64"), ("i128", "i128"), ("felt252", "felt252"), ("bytes31", "bytes31"),
+                ("B00", "BoundedInt<0, 0>"), ("B01", "BoundedInt<0, 1>"), ("B11", "BoundedInt<1, 1>"), ("Bm10", "BoundedInt<-1, 0>"),
+                ("Bm1m1", "BoundedInt<-1, -1>"), ("B0x", "BoundedInt<0, 340282366920938463463374607431768211455>"),
+                ("B0y", "BoundedInt<0, 340282366920938463463374607431768211456>"), ("B1x", "BoundedInt<1, 340282366920938463463374607431768211455>"),
+                ("Bsq", "BoundedInt<0, 340282366920938463426481119284349108225>"),
+                ("Bi", "BoundedInt<-170141183460469231731687303715884105728, 170141183460469231731687303715884105727>"),
+                ("Bp", "BoundedInt<0, 3618502788666131213697322783095070105623107215331596699973092056135872020480>"),
+                ("NZu8", "NonZero<u8>"), ("NZB00", "NonZero<B00>"), ("NZB01", "NonZero<B01>"), ("Arr", "Array<felt252>"), ("Bx", "Box<u8>"),
+            ];
+            let mut generics: std::collections::BTreeSet<(String, usize)> = Default::default();
+            for item in &corpus {
+                for d in &item.program.libfunc_declarations {
+                    let n = d.long_id.generic_args.len();
+                    if (1..=3).contains(&n) && d.long_id.generic_args.iter().all(|a| matches!(a, cairo_lang_sierra::program::GenericArg::Type(_))) {
+                        generics.insert((d.long_id.generic_id.0.to_string(), n));
+                    }
+                }
+            }
+            let header: String = POOL.iter().map(|(n, t)| format!("type {n} = {t};\n")).collect();
+            let mut k: u64 = 0;
+            for (name, arity) in &generics {
+                let total = POOL.len().pow(*arity as u32);
+                // Arity 3 is thinned; arities 1 and 2 are complete.
+                let step = if *arity == 3 { tier.pick(97usize, 7) } else { 1 };
+                for combo in (0..total).step_by(step) {
+                    let shard = k % n_shards;
+                    k += 1;
+                    if !shards.contains(&shard) {
+                        continue;
+                    }
+                    let mut c = combo;
+                    let mut args = vec![];
+                    for _ in 0..*arity {
+                        args.push(POOL[c % POOL.len()].0);
+                        c /= POOL.len();
+                    }
+                    let text = format!("{header}\nlibfunc l = {name}<{}>;\n", args.join(", "));
+                    let Some(p) = sierra::parse(&text) else {
+                        ctx.stats.count("instantiations_unparsable");
+                        continue;
+                    };
+                    ctx.stats.eval();
+                    match judge(&p, false) {
+                        Ok((_, acc, _)) => {
+                            ctx.stats.count(if acc { "instantiations_accepted" } else { "instantiations_rejected" });
+                            ctx.stats.nontrivial(hash_str(&text));
+                        }
+                        Err((sig, what)) => {
+                            if reported.insert(sig.clone()) || ctx.known.matches("C14", &sig).is_some() {
+                                let f = Failure { sig, what, artefact: json!({"origin": format!("instantiation {name}<{}>", args.join(", ")), "sierra": text, "mutations": []}) };
+                                ctx.report(&f, shard);
+                            }
                         }
                     }
                 }
